@@ -40,8 +40,55 @@ def token_level(ctx, depth, cells):
                   what='exported cell is not duration marks + pitch + accidental + sorted set of signifiers (or the verbatim cell)')
 
 
+def extended_signifiers(ctx, depth):
+    """notes with signifiers of the FULL alphabet of the grammar (C01.EXT_SIGS: slurs with elision marks and staff changes, ties, hidden ties,
+    editorial marks `y` / `yy`, trills, mordents, grace marks ...), one before the duration and one after the pitch, in a two-spine score:
+    the exported cell is duration + pitch + the sorted set of the signifiers, in place, and the neighbouring cells are untouched.  Oracle
+    written from the statement (all signifiers have the one category DECORATION, so "sorted" is code-point order); no model involved.
+    `TT` (extended trill) is read as two `T` and printed as one: finding F21, attributed only when that is the whole difference."""
+    import kernpy as kp
+    from . import c01
+    rng = ctx.rng
+    sigs = c01.EXT_SIGS
+    combos = [(a, None) for a in sigs] + [(None, a) for a in sigs]
+    pairs = [(a, b) for a in sigs for b in sigs]
+    combos += rng.sample(pairs, 400) if depth == 'quick' else pairs
+    combos += [('yy', None), (None, 'yy'), ('yy', 'L'), ('y', 'yy'), ('TT', None), ('(', '&(')]
+    for a, b in combos:
+        base = rng.choice(['4c', '8dd', '16GG', '2e'])
+        cell = (a or '') + base + (b or '')
+        other = rng.choice(['4C', '2r', '.', '8g#L'])
+        text = '**kern\t**kern\n*clefG2\t*clefF4\n=1\t=1\n%s\t%s\n%s\t%s\n==\t==\n*-\t*-\n' % (cell, other, other, cell)
+        def run():
+            d, e = kp.loads(text)
+            return [[x.encoding for x in e], kp.dumps(d)]
+        r = call(run)
+        ctx.seen({'cell': cell, 'clause': 'extended signifier alphabet'}, True)
+        if 'ok' not in r:
+            ctx.fail({'text': text, 'clause': 'extended signifier alphabet'}, 'import / export of a note with grammar signifiers raises', impl=r)
+            continue
+        errs, out = r['ok']
+        if errs:
+            ctx.count('ext_sig:parser-rejects')
+            continue
+        exp_cell = base + ''.join(sorted({x for x in (a, b) if x}))
+        exp_other = {'8g#L': '8g#L'}.get(other, other)
+        def grid(c):
+            return '**kern\t**kern\n*clefG2\t*clefF4\n=\t=\n%s\t%s\n%s\t%s\n==\t==\n*-\t*-\n' % (c, exp_other, exp_other, c)
+        exp = grid(exp_cell)
+        if other == '.':
+            pass
+        ctx.count('ext_sig:checked')
+        if out != exp:
+            tt_only = 'TT' in (a, b) and out == grid(base + ''.join(sorted({('T' if x == 'TT' else x) for x in (a, b) if x})))
+            ctx.fail({'text': text, 'cell': cell, 'clause': 'conservation (full signifier alphabet)'},
+                     'exported cell is not duration marks + pitch + accidental + sorted set of signifiers (or the neighbouring cells changed)',
+                     impl=out, expected=exp, core=not tt_only, finding='F21-extended-trill' if tt_only else None, tie_ok=True)
+
+
 def explore(ctx, depth):
     import gen, docrun
+    extended_signifiers(ctx, depth)
     n = 600 if depth == 'quick' else 6000
     token_level(ctx, depth, gen.token_stream(ctx.rng, n))
     cases = docrun.make_cases(ctx, 60 if depth == 'quick' else 800)
@@ -114,6 +161,10 @@ def reproduce(ctx, key, w):
         d, _ = kp.loads(w['input']['text'])
         return kp.dumps(d) == w['impl']
     if key == 'F16-hidden-barline':
+        import kernpy as kp
+        d, _ = kp.loads(w['input']['text'])
+        return kp.dumps(d) == w['impl']
+    if key == 'F21-extended-trill':
         import kernpy as kp
         d, _ = kp.loads(w['input']['text'])
         return kp.dumps(d) == w['impl']
